@@ -69,7 +69,7 @@ def exec_paths(cx, cls, func=None):
             if ev.kind == 'cond':
                 sub = ev._sub
                 if isinstance(sub, ast.Call) and isinstance(sub.func, ast.Attribute) and U(sub.func.value) == ctxname \
-                        and sub.func.attr == 'validate' and ev.frame.fid == 0:
+                        and sub.func.attr == 'validate':
                     ep.ops.append(Op('validate', sub, ev, i, ev.a))
                 else:
                     fnz = cx.nz(ev.frame.func.mod, ev.frame.cls) if ev.frame.func is not None else nz
@@ -77,7 +77,7 @@ def exec_paths(cx, cls, func=None):
                         ep.cons.append((i, c))
             elif ev.kind == 'call':
                 sub = ev._sub
-                if isinstance(sub.func, ast.Attribute) and U(sub.func.value) == ctxname and ev.frame.fid == 0:
+                if isinstance(sub.func, ast.Attribute) and U(sub.func.value) == ctxname:
                     if sub.func.attr in ('getValues', 'setValues'):
                         ep.ops.append(Op('get' if sub.func.attr == 'getValues' else 'set', sub, ev, i))
                     elif sub.func.attr == 'validate':
